@@ -28,6 +28,9 @@ func get[X ~[]E, E any](x X, i int) (X, *E) {
 type Uint64 uint64
 
 func decode(b string) (uint64, error) {
+	if len(b) > 16 {
+		return 0, fmt.Errorf("hex quantity %q exceeds 64 bits", b)
+	}
 	var res uint64
 	for i := range b {
 		var nibble uint64
